@@ -687,6 +687,29 @@ def success_side(ctx: Ctx, n):
                     ctx.violate(sig, f"complete peptide {[r0[0].resn for r0 in res]} fails under {ff}: {msg}", {"pdb": text, "options": [f"--ff={ff}"]})
 
 
+def nucleic_success_side(ctx: Ctx, reps):
+    """'complete standard ... nucleotide residues and waters ... every built-in force field that defines those residue
+    classes': synthesised DNA / RNA strands (every base at the 5' end, in the middle and at the 3' end) under every force
+    field whose data define the nucleotides (the model's nucleotide_table_coverage: AMBER, CHARMM, TYL06; PARSE for RNA)"""
+    rng = ctx.rng
+    seen = set()
+    for _ in range(reps):
+        for text, ff, opts, feats, strands in c01.nucleic_requests(rng):
+            r = G.run_pipeline(text, [f"--ff={ff}"])
+            ctx.evaluations += 1
+            kind = "DNA" if "nucleic:D" in feats else "RNA"
+            ctx.distinct.add(("success-nucleic", ff, kind, tuple(tuple(b) for _c, b in strands)))
+            ctx.count("success-side", f"{ff} {kind} strands:{r.status}")
+            if r.status != "ok":
+                msg = str(r.exc.__cause__ or r.exc)[:120]
+                ends = ",".join(sorted({b[0] + "5" for _c, b in strands} | {b[-1] + "3" for _c, b in strands}))
+                sig = {"side": "success", "ff": ff, "cell": f"{kind} strand", "error": "non-integral-total" if "integral" in msg else msg[:40]}
+                k = tuple(sig.items())
+                if k not in seen:
+                    seen.add(k)
+                    ctx.violate(sig, f"complete {kind} strands {[b for _c, b in strands]} (ends {ends}) fail under {ff}: {msg}", {"pdb": text, "options": [f"--ff={ff}"]})
+
+
 _heavy = None
 
 
@@ -760,7 +783,7 @@ def run(ctx: Ctx):
     ctx.extra["rule"] = (
         "fault injection: every stage of the generated main_driver / non_trivial skeleton x {ValueError, RuntimeError} x output path {absent, pre-existing}; natural failures (11 triggers x 2 path states); "
         "charge guard: noninteger_charge vs the model on charges with every kind of fractional part; hydrogen-free peptides under --assign-only and CA traces (totals that cannot be integral): fail and leave the path alone, or write an integral total; "
-        "PARSE with --neutralc / --neutraln and each residue type at the neutralised end; success side: complete peptide windows with each of the 20 residue types forced in turn x six force fields; a case is (stage, exception, path state) / (trigger, path state) / (ff, first, last residue); distinct counts distinct tuples; "
+        "PARSE with --neutralc / --neutraln and each residue type at the neutralised end; success side: complete peptide windows with each of the 20 residue types forced in turn x six force fields, and synthesised DNA / RNA strands (every base at 5' / middle / 3') x every force field that defines the nucleotides; a case is (stage, exception, path state) / (trigger, path state) / (ff, first, last residue); distinct counts distinct tuples; "
         "refused requests: every refusal in the text of build_main_parser (choices / types), check_files (--userff without --usernames with a user file compatible with the --ff given and one of another family, "
         "missing --usernames / --userff / --ligand file) and check_options (pH outside [0, 14], --neutraln / --neutralc without PARSE) x {--ff omitted, six --ff values} x output path {absent, pre-existing}: the run must raise / exit non-zero and the output path must be byte-identical to before"
     )
@@ -772,6 +795,7 @@ def run(ctx: Ctx):
     non_integral_totals(ctx, ctx.scale(12, 400))
     success_side(ctx, ctx.scale(20, 600))
     neutral_termini_side(ctx, ctx.scale(40, 400))
+    nucleic_success_side(ctx, ctx.scale(1, 10))
     # (last, so that the inputs drawn by the streams above stay what they were)
     refused_requests(ctx)
 
